@@ -25,6 +25,8 @@ structure DS where
   s : S
   wlen : Nat := 0
   whash : UInt64 := 14695981039346656037
+  alen : Nat := 0
+  ahash : UInt64 := 14695981039346656037
   nctl : Nat := 0
   dead : Bool := false
 
@@ -45,35 +47,46 @@ def showCtl (g : Cfg) (c : Ctl) : String :=
 def observe (d : DS) (s : S) : DS × String :=
   let wlen := d.wlen + s.wire.length
   let whash := s.wire.foldl (fun h x => (h ^^^ x.toUInt64) * 1099511628211) d.whash
+  let alen := d.alen + s.accepted.length
+  let ahash := s.accepted.foldl (fun h x => (h ^^^ x.toUInt64) * 1099511628211) d.ahash
   let ctl := String.intercalate "," ((s.ctl.drop d.nctl).map (showCtl d.g))
   let items := String.intercalate "," (s.wl.map showItem)
-  let str := s!"closed={b2s s.closed} left={s.left} wl=[{items}] wadded={b2s s.isWAdded} reg={b2s s.reg} ctl=[{ctl}] wire={wlen}:{whash} onclose={s.onClose}"
-  ({ d with s := { s with wire := [], accepted := [] }, wlen, whash, nctl := s.ctl.length }, str)
+  let pend := pending d.g s.wl
+  let acc := if s.closed then "-" else s!"{alen}:{ahash}"
+  let edge := if d.g.mode == .et && s.reg && !s.closed then b2s s.edgeDue else "-"
+  let str := s!"closed={b2s s.closed} left={s.left} wl=[{items}] pend={pend.length}:{Drv.fnv pend} acc={acc} wadded={b2s s.isWAdded} reg={b2s s.reg} kout={b2s (s.reg && s.kOut)} dis={b2s s.disarmed} edge={edge} ctl=[{ctl}] wire={wlen}:{whash} onclose={s.onClose} wtimer={b2s s.wTimer}"
+  ({ d with s := { s with wire := [], accepted := [] }, wlen, whash, alen, ahash, nctl := s.ctl.length }, str)
 
 inductive Call
-  | write (b : Bytes) (k : KAns)
-  | writev (bs : List Bytes) (k : KAns)
+  | write (b : Bytes) (ks : List KAns)
+  | writev (bs : List Bytes) (ks : List KAns)
   | sendfile (off len : Nat) (ks : List KAns)
 
 /-- "write <payload> K=<k>" | "writev <m> <payload>… K=<k>" | "sendfile <off> <len> K=<ks>" -/
 def parseCall (g : Cfg) (ws : List String) : Option Call := do
   let ks ← parseKs ((Drv.field ws "K").getD "-")
-  let k1 : KAns := ks.headD .eagain
   match ws with
-  | ["write", p, _] => some (.write (Drv.payload p) k1)
+  | ["write", p, _] => some (.write (Drv.payload p) ks)
   | "writev" :: m :: rest =>
     let m ← m.toNat?
-    if rest.length ≠ m + 1 then none else some (.writev ((rest.take m).map Drv.payload) k1)
+    if rest.length ≠ m + 1 then none else some (.writev ((rest.take m).map Drv.payload) ks)
   | ["sendfile", off, len, _] =>
     let off ← off.toNat?
     let len ← len.toNat?
     if off > g.fsize then none else some (.sendfile off len ks)
   | _ => none
 
-def doCall (g : Cfg) (s : S) : Call → S × Ret
-  | .write b k => write g s b k
-  | .writev bs k => writev g s bs k
-  | .sendfile off len ks => sendfile g s off len ks
+/-- the model's step functions for the three calls (`ConnFull.step` is defined through the same) -/
+def rawCall (g : Cfg) (s : S) : Call → S × Ret
+  | .write b ks => writeOp g s b ks
+  | .writev bs ks => writevOp g s bs ks
+  | .sendfile off len ks => sendfileOp g s off len ks
+
+/-- a call of the sequential harness: if it flipped the flag (fatal error) its own goroutine runs the
+    teardown right after the unlock -/
+def doCall (g : Cfg) (s : S) (c : Call) : S × Ret :=
+  let r := rawCall g s c
+  (teardown r.1, r.2)
 
 def parseMode (s : String) : Option Mode :=
   if s == "lt" then some .lt else if s == "et" then some .et else if s == "oneshot" then some .oneshot else none
@@ -83,6 +96,43 @@ def parseOpen (g : Cfg) (s : String) : Option (List Call) :=
   if s == "-" || s == "" then some [] else (s.splitOn ";").mapM fun it => parseCall g (it.splitOn "/")
 
 def hungLine : String := "hung"
+
+mutual
+partial def evLoop (h : IO.FS.Stream) (d : DS) (bits : String) (more : List String) : IO Unit := do
+
+  let ks := parseKs ((Drv.field more "K").getD "-")
+  let cb : Option (Option Call) := match Drv.field more "cb" with
+    | none => some none
+    | some c => (parseCall d.g (c.splitOn "/")).map some
+  let race : Option (Option Call) := match Drv.field more "race" with
+    | none => some none
+    | some c => if bits == "i" && (Drv.field more "cb").isNone then (parseCall d.g (c.splitOn "/")).map some else none
+  match ks, cb, race with
+  | some ks, some cb, some race =>
+    let out := bits.contains 'o'; let inn := bits.contains 'i'; let err := bits.contains 'e'
+    let dl := evDeliv d.g d.s out inn err
+    let s1 := evTakeOp d.g d.s out inn err ks
+    let (d1, _) := observe d s1
+    -- the data callback runs its call while the event is being handled
+    let (d2, cbs) := match cb with
+      | some c => if dl.2.1 && !d1.s.hung && !d1.s.closed then   -- a closed conn reads ErrClosed: no data callback
+                    let (s2, r) := doCall d.g d1.s c
+                    ((observe d1 s2).1, showRet r)
+                  else (d1, "-")
+      | none => (d1, "-")
+    let (d3, str) := observe { d2 with nctl := d.nctl } (teardown (evEnd d.g d2.s))
+    if d3.s.hung then IO.println hungLine; loop h { d3 with dead := true }
+    else
+      -- a racing call of another goroutine waits for the conn mutex: it runs after the poller's tail
+      let (d4, rcs, str) := match race with
+        | some c =>
+          let (s4, r) := doCall d.g d3.s c
+          let (d4, str4) := observe { d3 with nctl := d.nctl } { s4 with ctl := s4.ctl }
+          (d4, showRet r, str4)
+        | none => (d3, "-", str)
+      let dstr := (if dl.1 then "o" else "") ++ (if dl.2.1 then "i" else "") ++ (if dl.2.2 then "e" else "")
+      IO.println s!"R deliv={if dstr == "" then "-" else dstr} cb={cbs} rc={rcs} {str}"; loop h d4
+  | _, _, _ => IO.println "bad-op"; loop h { d with dead := true }
 
 partial def loop (h : IO.FS.Stream) (d : DS) : IO Unit := do
   let line ← h.getLine
@@ -107,55 +157,59 @@ partial def loop (h : IO.FS.Stream) (d : DS) : IO Unit := do
       let dial := Drv.field cfg "dial" == some "1"
       -- open callback: the calls run before registration; DialAsync: addDialer first, then the connect
       -- completes (EPOLLOUT) and the calls run inside the connected callback
-      let mut d : DS := { g, s := if dial then evTake g (registerDial g {}) true false false [] else {} }
+      let mut d : DS := { g, s := if dial then evTakeOp g (registerDialOp g {}) true false false [] else {} }
       let mut rs : List String := []
       for c in ow do
         let (s, r) := doCall g d.s c
         rs := rs ++ [showRet r]
         let (d', _) := observe d s
         d := d'
-      let (d', str) := observe { d with nctl := 0 } (if dial then evEnd g d.s else register g d.s)
+      let (d', str) := observe { d with nctl := 0 } (if dial then teardown (evEnd g d.s) else registerOp g d.s)
       if d'.s.hung then IO.println hungLine; loop h { d' with dead := true }
       else IO.println s!"R ow={String.intercalate ";" rs} {str}"; loop h d'
   | "O" :: rest =>
     if d.dead then IO.println "dead"; loop h d
     else match rest with
-    | "event" :: bits :: more =>
-      let ks := parseKs ((Drv.field more "K").getD "-")
-      let cb : Option (Option Call) := match Drv.field more "cb" with
-        | none => some none
-        | some c => (parseCall d.g (c.splitOn "/")).map some
+    | "event" :: "o" :: more =>
+      match Drv.field more "park" with
+      | some pc =>
+        -- a writer parked inside its critical section while the event arrives: the poller's flush waits for
+        -- the mutex, so the call comes first, then the event
+        match parseKs ((Drv.field more "K").getD "-"), parseCall d.g (pc.splitOn "/") with
+        | some ks, some c =>
+          let (s1, r) := doCall d.g d.s c
+          let (d1, _) := observe d s1
+          let dl := evDeliv d.g d1.s true false false
+          let s2 := teardown (evEnd d.g (evTakeOp d.g d1.s true false false ks))
+          let (d2, str) := observe { d1 with nctl := d.nctl } s2
+          if d2.s.hung then IO.println hungLine; loop h { d2 with dead := true }
+          else IO.println s!"R deliv={if dl.1 then "o" else "-"} cb=- rc={showRet r} {str}"; loop h d2
+        | _, _ => IO.println "bad-op"; loop h { d with dead := true }
+      | none => evLoop h d "o" more
+    | "event" :: bits :: more => evLoop h d bits more
+    | "close" :: more =>
+      -- Close: flip; a racing call of another goroutine inside the teardown window; teardown
       let race : Option (Option Call) := match Drv.field more "race" with
-        | none => some none
-        | some c => if bits == "i" && (Drv.field more "cb").isNone then (parseCall d.g (c.splitOn "/")).map some else none
-      match ks, cb, race with
-      | some ks, some cb, some race =>
-        let out := bits.contains 'o'; let inn := bits.contains 'i'; let err := bits.contains 'e'
-        let dl := deliverable d.s out inn err
-        let s1 := evTake d.g d.s out inn err ks
-        let (d1, _) := observe d s1
-        -- the data callback runs its call while the event is being handled
-        let (d2, cbs) := match cb with
-          | some c => if dl.2.1 && !d1.s.hung && !d1.s.closed then   -- a closed conn reads ErrClosed: no data callback
-                        let (s2, r) := doCall d.g d1.s c
-                        ((observe d1 s2).1, showRet r)
-                      else (d1, "-")
-          | none => (d1, "-")
-        let (d3, str) := observe { d2 with nctl := d.nctl } (evEnd d.g d2.s)
-        if d3.s.hung then IO.println hungLine; loop h { d3 with dead := true }
-        else
-          -- a racing call of another goroutine waits for the conn mutex: it runs after the poller's tail
-          let (d4, rcs, str) := match race with
-            | some c =>
-              let (s4, r) := doCall d.g d3.s c
-              let (d4, str4) := observe { d3 with nctl := d.nctl } { s4 with ctl := s4.ctl }
-              (d4, showRet r, str4)
-            | none => (d3, "-", str)
-          let dstr := (if dl.1 then "o" else "") ++ (if dl.2.1 then "i" else "") ++ (if dl.2.2 then "e" else "")
-          IO.println s!"R deliv={if dstr == "" then "-" else dstr} cb={cbs} rc={rcs} {str}"; loop h d4
-      | _, _, _ => IO.println "bad-op"; loop h { d with dead := true }
-    | ["close"] =>
-      let (d', str) := observe d (close d.s)
+        | none => if more.isEmpty then some none else none
+        | some c => (parseCall d.g (c.splitOn "/")).map some
+      match race with
+      | none => IO.println "bad-op"; loop h { d with dead := true }
+      | some race =>
+        let s1 := flipClosed d.s
+        let (s2, rcs) := match race with
+          | some c => let (s2, r) := rawCall d.g s1 c; (s2, showRet r)
+          | none => (s1, "-")
+        let (d', str) := observe d (teardown s2)
+        IO.println s!"R rc={rcs} {str}"; loop h d'
+    | ["deadline", t] =>
+      if t == "far" || t == "0" then
+        let (d', str) := observe d (setWriteDeadline d.s (t == "0"))
+        IO.println s!"R {str}"; loop h d'
+      else IO.println "bad-op"; loop h { d with dead := true }
+    | ["fire"] =>
+      -- the deadline expires now: only a timer that is set on an open conn is forced by the harness
+      let s := if d.s.wTimer && !d.s.closed then teardown (timerFire (timerExpire d.s)) else d.s
+      let (d', str) := observe d s
       IO.println s!"R {str}"; loop h d'
     | _ =>
       match parseCall d.g rest with
@@ -170,6 +224,8 @@ partial def loop (h : IO.FS.Stream) (d : DS) : IO Unit := do
       let (d', str) := observe d d.s
       IO.println s!"Q {str}"; loop h d'
   | _ => IO.println "bad-op"; loop h { d with dead := true }
+
+end
 
 def main : IO Unit := do
   loop (← IO.getStdin) { g := { mode := .lt, maxWB := 0, fsize := 0, file := fileByte }, s := {}, dead := true }
